@@ -138,7 +138,7 @@ func tplCorpus() []string {
 		"@((x) => x)", "@(((x) => x)(1))", "@(((x, y) => x)(1))", "@((() => 1)(1, 2))", "@(upper)", "@(upper(upper))", "@(if(true))",
 		"@(datetime_add(now(), 2147483647, \"Y\"))", "@(datetime_add(now(), -2147483648, \"M\"))", "@(datetime_from_epoch(10000000000000000000000))",
 		"@(date_from_parts(2147483647, 12, 2147483647))", "@(format_number(1, 10))", "@(format_number(1E400))", "@(1e5)", "@(0.5 ^ 0.5)", "@(-8 ^ 0.5)",
-		"@(0 ^ -1)", "@(2 ^ 2 ^ 2 ^ 2)", "@(10 ^ 400)", "@(1 / 3 * 3)", "@(regex_match(\"a\", \"(\"))", "@(regex_match(\"a\", \"(a)\", 2))",
+		"@(0 ^ -1)", "@(0.1 ^ 2000000000 * 0.1 ^ 2000000000)", "@(0.1 ^ 2000000000 < 1)", "@(2 ^ -999999999)", "@(0.1 ^ 300 ^ 1.5)", "@(0.001 ^ 999999999)", "@(2 ^ 2 ^ 2 ^ 2)", "@(10 ^ 400)", "@(1 / 3 * 3)", "@(regex_match(\"a\", \"(\"))", "@(regex_match(\"a\", \"(a)\", 2))",
 		"@(has_group(contact.groups, \"x\").match)", "@(has_ward())", "@(has_phone(\"\", contact))", "@(has_number_between(\"5\", \"x\", 7))",
 		deep(50), deep(500), strings.Repeat("@contact.name ", 800), strings.Repeat("@(", 300), strings.Repeat("@(\"", 200),
 		"@(" + strings.Repeat("1+", 2000) + "1)", "@(" + strings.Repeat("-", 2000) + "1)", "@(a" + strings.Repeat(".a", 2000) + ")",
